@@ -78,6 +78,8 @@ def run(e: Engine, rep: Report):
     from . import storeback
     storeback.run(e, rep, 'R3.8')
     r39(e, rep, 'R3.9')
+    from . import c15 as _c15
+    _c15.i16(e, rep, 'R3.10')
     rep.floor('R3.1', 2, 'attempt spawn sites')
     rep.floor('R3.7', 2, 'release sites of the in-flight mark')
 
@@ -604,46 +606,84 @@ def r36(e: Engine, rep: Report, rule: str):
         env = ctx.func.params[2] if len(ctx.func.params) > 2 else 'envelope'
     src = env + '.recipients'
 
-    def from_recipients(x: ast.AST, seen=()) -> bool:
-        if any(ast.unparse(y) == src for y in ast.walk(x)):
+    def defs_of(name):
+        out = []
+        for n in walk_own(fn):
+            if isinstance(n, ast.Assign) and any(
+                    isinstance(t, ast.Name) and t.id == name
+                    for t in n.targets):
+                out.append(n.value)
+        return out
+
+    def is_rcpt_list(x, seen=()) -> bool:
+        """x denotes the recipient list of the envelope at hand (or a copy
+        of it in the same order)"""
+        if ast.unparse(x) == src:
             return True
-        # a bound method / alias of the list: `index_of = env.recipients.index`
+        if isinstance(x, ast.Call) and isinstance(x.func, ast.Name) and \
+                x.func.id in ('list', 'tuple') and len(x.args) == 1:
+            return is_rcpt_list(x.args[0], seen)
+        if isinstance(x, ast.Name) and x.id not in seen:
+            ds = defs_of(x.id)
+            return bool(ds) and all(is_rcpt_list(d, seen + (x.id,))
+                                    for d in ds)
+        return False
+
+    def enum_index(name):
+        """lists `name` is the index variable of an enumeration over"""
+        out = []
+        for n in walk_own(fn):
+            if isinstance(n, (ast.For, ast.comprehension)):
+                it, tg = n.iter, n.target
+                if isinstance(it, ast.Call) and \
+                        ast.unparse(it.func) == 'enumerate' and \
+                        isinstance(tg, ast.Tuple) and tg.elts and \
+                        isinstance(tg.elts[0], ast.Name) and \
+                        tg.elts[0].id == name:
+                    out.append(it.args[0] if it.args else it)
+                elif any(isinstance(t, ast.Name) and t.id == name
+                         for t in ast.walk(tg)):
+                    out.append(None)
+        return out
+
+    def from_recipients(x: ast.AST, seen=()) -> bool:
+        # <the list>.index(rcpt)
+        if isinstance(x, ast.Call) and isinstance(x.func, ast.Attribute) and \
+                x.func.attr == 'index':
+            return is_rcpt_list(x.func.value)
+        # index_of(rcpt) with `index_of = <the list>.index`
         if isinstance(x, ast.Call) and isinstance(x.func, ast.Name) and \
                 x.func.id not in seen:
-            fdefs = [n.value for n in walk_own(fn)
-                     if isinstance(n, ast.Assign) and any(
-                         isinstance(t, ast.Name) and t.id == x.func.id
-                         for t in n.targets)]
-            if fdefs and all(from_recipients(d, seen + (x.func.id,))
-                             for d in fdefs):
-                return True
-        if isinstance(x, ast.Call) and isinstance(x.func, ast.Attribute) and \
-                isinstance(x.func.value, ast.Name) and \
-                x.func.value.id not in seen:
-            # recipients.index(rcpt) with `recipients = envelope.recipients`
-            if from_recipients(x.func.value, seen):
-                return True
+            fdefs = defs_of(x.func.id)
+            return bool(fdefs) and all(
+                isinstance(d, ast.Attribute) and d.attr == 'index' and
+                is_rcpt_list(d.value) for d in fdefs)
+        # positions[rcpt] with positions = {r: i for i, r in enumerate(list)}
+        if isinstance(x, ast.Subscript) and isinstance(x.value, ast.Name):
+            ds = defs_of(x.value.id)
+            ok = bool(ds)
+            for d in ds:
+                if not (isinstance(d, ast.DictComp) and
+                        len(d.generators) == 1 and
+                        isinstance(d.generators[0].iter, ast.Call) and
+                        ast.unparse(d.generators[0].iter.func) ==
+                        'enumerate' and d.generators[0].iter.args and
+                        is_rcpt_list(d.generators[0].iter.args[0]) and
+                        isinstance(d.generators[0].target, ast.Tuple) and
+                        len(d.generators[0].target.elts) == 2 and
+                        ast.unparse(d.value) ==
+                        ast.unparse(d.generators[0].target.elts[0]) and
+                        ast.unparse(d.key) ==
+                        ast.unparse(d.generators[0].target.elts[1])):
+                    ok = False
+            return ok
         if isinstance(x, ast.Name) and x.id not in seen:
-            defs = []
-            for n in walk_own(fn):
-                if isinstance(n, ast.Assign) and any(
-                        isinstance(t, ast.Name) and t.id == x.id
-                        for t in n.targets):
-                    defs.append(n.value)
-                if isinstance(n, (ast.For, ast.comprehension)):
-                    it, tg = n.iter, n.target
-                    if isinstance(it, ast.Call) and \
-                            ast.unparse(it.func) == 'enumerate' and \
-                            isinstance(tg, ast.Tuple) and tg.elts and \
-                            isinstance(tg.elts[0], ast.Name) and \
-                            tg.elts[0].id == x.id:
-                        # an index of an enumeration: of which list?
-                        defs.append(it.args[0] if it.args else it)
-                    elif any(isinstance(t, ast.Name) and t.id == x.id
-                             for t in ast.walk(tg)):
-                        defs.append(ast.Constant(value=None))
-            return bool(defs) and all(
-                from_recipients(d, seen + (x.id,)) for d in defs)
+            lists = enum_index(x.id)
+            ds = defs_of(x.id)
+            if not lists and not ds:
+                return False
+            return all(l is not None and is_rcpt_list(l) for l in lists) \
+                and all(from_recipients(d, seen + (x.id,)) for d in ds)
         return False
     sites = 0
     fill_asts = {id(x.ast) for x in fill}
